@@ -4,6 +4,12 @@
 //! stream produced here with zlib's own `deflate`); the Lean driver packs them with
 //! `Spec/SqPackData` into a dat file (hex in `input`); `run` writes that file to a scratch
 //! directory and calls `SqPackData::read_from_offset`.
+//!
+//! `xarch` cases are the end-to-end form of the property ("entries at any 128-aligned offset in
+//! dat0..dat7", observed at `GameData::extract`): abstract installations whose entries (standard /
+//! texture / model) sit in dat files 0..7 — different entries at the same offset of different dat
+//! files — behind index / index2 files; the Lean driver encodes every file (`Spec/Archive` index
+//! encoders, `Spec/SqPackData` entry encoders) and C01's runner materialises and queries them.
 #![allow(unused)]
 use crate::util::*;
 use libz_rs_sys::*;
@@ -134,6 +140,533 @@ fn place(rng: &mut Rng) -> (u64, u64) {
     (units, suffix)
 }
 
+// ------------------------------------------------------------------------------------------------
+// large entries: block offsets, section / mip offsets and sizes, and block counts beyond the 8- and
+// 16-bit boundaries of the fields that carry them (32-bit block-table offsets, 32-bit LOD / section
+// offsets and sizes, 16-bit block counts and indices)
+// ------------------------------------------------------------------------------------------------
+
+#[derive(Clone, Copy)]
+enum Cut {
+    /// every block as large as a retail packer makes them (16000), the rest in the last one
+    Full,
+    /// 1..=112 bytes: one 128-byte unit per block, so block counts grow fastest
+    Tiny,
+    /// a few hundred to a few thousand bytes
+    Medium,
+    /// 16001..=32000 bytes stored raw (the largest payload the format admits)
+    Huge,
+    /// anything in 1..=16000, biased to the ends
+    Mixed,
+}
+
+/// how a block is stored
+#[derive(Clone, Copy)]
+enum Store {
+    Raw,
+    Deflated,
+    Any,
+}
+
+fn cut_sizes(rng: &mut Rng, total: usize, cut: Cut) -> Vec<usize> {
+    let mut sizes = vec![];
+    let mut left = total;
+    while left > 0 {
+        let s = match cut {
+            Cut::Full => 16000,
+            Cut::Tiny => rng.range(1, 112) as usize,
+            Cut::Medium => rng.range(300, 4000) as usize,
+            Cut::Huge => rng.range(16001, 32000) as usize,
+            Cut::Mixed => match rng.below(6) {
+                0 => 1,
+                1 | 2 => 16000,
+                3 => rng.range(1, 16) as usize,
+                _ => rng.range(1, 16000) as usize,
+            },
+        }
+        .min(left);
+        sizes.push(s);
+        left -= s;
+    }
+    sizes
+}
+
+fn block_stored(rng: &mut Rng, data: &[u8], store: Store) -> String {
+    let raw = |d: &[u8]| format!("r{}", hex(d));
+    if data.is_empty() || data.len() > 16000 {
+        return raw(data);
+    }
+    let mode = match store {
+        Store::Raw => return raw(data),
+        Store::Deflated => rng.range(1, 4),
+        Store::Any => rng.below(5),
+    };
+    let c = match mode {
+        0 => return raw(data),
+        1 => deflate_raw(data, 0, Z_DEFAULT_STRATEGY),
+        2 => deflate_raw(data, 6, Z_FIXED),
+        3 => deflate_raw(data, 9, Z_DEFAULT_STRATEGY),
+        _ => deflate_raw(data, 1, Z_DEFAULT_STRATEGY),
+    };
+    if c.len() >= 32000 {
+        return raw(data);
+    }
+    format!("d{}/{}", hex(data), hex(&c))
+}
+
+/// `total` bytes of content cut and stored as said; never `-` for total > 0
+fn blocks_cut(rng: &mut Rng, total: usize, cut: Cut, store: Store) -> String {
+    let data = content(rng, total);
+    let mut pos = 0;
+    let mut v = vec![];
+    for s in cut_sizes(rng, total, cut) {
+        v.push(block_stored(rng, &data[pos..pos + s], store));
+        pos += s;
+    }
+    if v.is_empty() { "-".into() } else { v.join(";") }
+}
+
+fn pick_store(rng: &mut Rng) -> Store {
+    *rng.pick(&[Store::Raw, Store::Deflated, Store::Any, Store::Any])
+}
+
+/// as `blocks_cut`, with the cut picked from `cuts` and a random storage policy
+fn blocks_any(rng: &mut Rng, total: usize, cuts: &[Cut]) -> String {
+    let cut = *rng.pick(cuts);
+    let store = pick_store(rng);
+    blocks_cut(rng, total, cut, store)
+}
+
+/// a standard entry of `lo..=hi` bytes whose block table crosses 2^16 (offsets) and, for the
+/// `Tiny` cut, 2^8 / 2^9 (block count)
+fn big_std(rng: &mut Rng, k: usize, lo: usize, hi: usize) -> String {
+    let (cut, total) = match k % 6 {
+        0 | 1 => (Cut::Full, rng.range(lo as u64, hi as u64) as usize), // >= 5 full blocks
+        2 => (Cut::Mixed, rng.range(lo as u64, hi as u64) as usize),
+        3 => (Cut::Medium, rng.range(lo as u64, (lo + (hi - lo) / 2) as u64) as usize),
+        // 128 bytes per block in the file: 512 blocks reach offset 2^16
+        4 => (Cut::Tiny, rng.range(32000, 45000) as usize),
+        _ => (Cut::Huge, rng.range(lo as u64, hi as u64) as usize),
+    };
+    let store = match k % 6 {
+        0 => Store::Raw,
+        1 => Store::Deflated,
+        _ => pick_store(rng),
+    };
+    blocks_cut(rng, total, cut, store)
+}
+
+/// texture: `<header hex> <mips>` with mip / block offsets and sizes beyond 2^16
+fn big_tex(rng: &mut Rng, k: usize, scale: usize) -> String {
+    let hdr_len = *rng.pick(&[80usize, 80, 0, 148]);
+    let hdr = rng.bytes(hdr_len);
+    let mut mips: Vec<String> = vec![];
+    match k % 4 {
+        0 => {
+            // a first mip above 64 KiB (its sizes, and the offsets of all later mips, exceed 2^16)
+            let mut size = rng.range(66000, 130000) as usize * scale;
+            let n_mips = rng.range(3, 7);
+            for m in 0..n_mips {
+                let cuts: &[Cut] = if m == 0 { &[Cut::Full] } else { &[Cut::Full, Cut::Mixed, Cut::Medium] };
+                mips.push(blocks_any(rng, size, cuts));
+                size = (size / 4).max(1);
+            }
+        }
+        1 => {
+            // many mips of similar size: the running offset crosses 2^16 in the middle of the table
+            let n_mips = rng.range(5, 9);
+            for _ in 0..n_mips {
+                let size = rng.range(9000, 30000) as usize * scale;
+                mips.push(blocks_any(rng, size, &[Cut::Full, Cut::Mixed, Cut::Medium]));
+            }
+        }
+        2 => {
+            // >= 256 blocks in one mip, >= 256 blocks before the next ones
+            let a = rng.range(18000, 24000) as usize * scale;
+            mips.push(blocks_any(rng, a, &[Cut::Tiny]));
+            let a = rng.range(16000, 22000) as usize * scale;
+            mips.push(blocks_any(rng, a, &[Cut::Tiny]));
+            let a = rng.range(1, 5000) as usize;
+            mips.push(blocks_any(rng, a, &[Cut::Medium]));
+            let a = rng.range(1, 300) as usize;
+            mips.push(blocks_any(rng, a, &[Cut::Tiny]));
+        }
+        _ => {
+            // a small first mip, a large later one (sizes need not decrease), the largest raw blocks
+            let a = rng.range(1, 3000) as usize;
+            mips.push(blocks_any(rng, a, &[Cut::Medium]));
+            let a = rng.range(66000, 100000) as usize * scale;
+            mips.push(blocks_cut(rng, a, Cut::Huge, Store::Raw));
+            mips.push("-".to_string());
+            let a = rng.range(20000, 40000) as usize * scale;
+            mips.push(blocks_any(rng, a, &[Cut::Full]));
+            let a = rng.range(1, 200) as usize;
+            mips.push(blocks_any(rng, a, &[Cut::Tiny]));
+        }
+    }
+    format!("{} {}", hex(&hdr), mips.join("|"))
+}
+
+/// model: `<meta> <secs>` with section offsets / sizes beyond 2^16 or block counts / block indices
+/// beyond 2^8 (runs: 0 stack, 1 runtime, then vertex / edge / index of LOD 0, 1, 2)
+fn big_mdl(rng: &mut Rng, k: usize, scale: usize) -> String {
+    let lods = rng.range(2, 3) as usize;
+    let with_edge = k % 6 == 2 || rng.chance(1, 2);
+    let mut secs: Vec<String> = vec![];
+    // the runs that carry the weight of this case: above 64 KiB, or >= 256 blocks
+    let mut heavy: Vec<usize> = vec![];
+    let mut many: Vec<usize> = vec![];
+    match k % 6 {
+        0 => heavy.push(2),                                   // vertex data of LOD 0, largest raw blocks
+        1 => heavy.push(0),                                   // stack: every later offset is >= 2^16
+        2 => {
+            // >= 256 blocks in a run of each kind (and >= 256 / 512 blocks before the later runs)
+            many.push(rng.below(2) as usize);
+            many.push(*rng.pick(&[2usize, 3, 5, 6]));
+            many.push(*rng.pick(&[4usize, 7]));
+        }
+        3 => {}                                               // no heavy run: the sum crosses 2^16 late
+        4 => heavy.push(1),                                   // runtime
+        _ => heavy.push(*rng.pick(&[4usize, 5, 7, 8, 10])),   // index data / a later LOD
+    }
+    for s in 0..11usize {
+        let lod = if s < 2 { 0 } else { (s - 2) / 3 };
+        let is_edge = s >= 2 && (s - 2) % 3 == 1;
+        let present = if is_edge { with_edge && lod < lods } else { s < 2 || lod < lods };
+        if !present && !heavy.contains(&s) && !many.contains(&s) {
+            secs.push("-".to_string());
+            continue;
+        }
+        let sec = if many.contains(&s) {
+            // 1..16 bytes per block
+            let n_blocks = rng.range(256, 330) as usize * scale;
+            let data = content(rng, n_blocks * 16);
+            let store = pick_store(rng);
+            let mut v = vec![];
+            let mut pos = 0;
+            for _ in 0..n_blocks {
+                let len = rng.range(1, 16) as usize;
+                v.push(block_stored(rng, &data[pos..pos + len], store));
+                pos += len;
+            }
+            v.join(";")
+        } else if heavy.contains(&s) {
+            let a = rng.range(66000, 110000) as usize * scale;
+            if k % 6 == 0 { blocks_cut(rng, a, Cut::Huge, Store::Raw) } else { blocks_any(rng, a, &[Cut::Full, Cut::Mixed, Cut::Huge]) }
+        } else if k % 6 == 3 {
+            let a = rng.range(9000, 24000) as usize * scale;
+            blocks_any(rng, a, &[Cut::Full, Cut::Medium])
+        } else {
+            let a = rng.range(1, 6000) as usize;
+            blocks_any(rng, a, &[Cut::Full, Cut::Medium, Cut::Mixed])
+        };
+        secs.push(sec);
+    }
+    format!(
+        "{},{},{},{},{},{} {}",
+        rng.u32_edge(),
+        rng.below(65536),
+        rng.below(65536),
+        lods,
+        rng.below(2),
+        with_edge as u8,
+        secs.join("|")
+    )
+}
+
+fn gen_big(rng: &mut Rng, thorough: bool, lines: &mut Vec<String>) {
+    let (n_std, n_tex, n_mdl) = if thorough { (90, 40, 48) } else { (8, 4, 6) };
+    for k in 0..n_std {
+        let (units, suffix) = place(rng);
+        let (lo, hi) = if thorough && k % 3 == 0 { (200_000, 900_000) } else { (70_000, 200_000) };
+        lines.push(format!("std {} {} {}", units, suffix, big_std(rng, k, lo, hi)));
+    }
+    for k in 0..n_tex {
+        let (units, suffix) = place(rng);
+        let scale = if thorough && k % 5 == 4 { 4 } else { 1 };
+        lines.push(format!("tex {} {} {}", units, suffix, big_tex(rng, k, scale)));
+    }
+    for k in 0..n_mdl {
+        let (units, suffix) = place(rng);
+        let scale = if thorough && k % 5 == 4 { 4 } else { 1 };
+        lines.push(format!("mdl {} {} {}", units, suffix, big_mdl(rng, k, scale)));
+    }
+    // a file-info header above 64 KiB: more than 8189 blocks in the block table
+    // (thorough only: the model re-walks the file for every block, ~25 s per case in the Lean driver)
+    let stores: &[Store] = if thorough { &[Store::Raw, Store::Any] } else { &[] };
+    for store in stores {
+        let n_blocks = rng.range(8200, 8400) as usize;
+        let data = content(rng, n_blocks);
+        let v: Vec<String> = data.chunks(1).map(|c| block_stored(rng, c, *store)).collect();
+        lines.push(format!("std {} 0 {}", rng.below(3), v.join(";")));
+    }
+}
+
+// ------------------------------------------------------------------------------------------------
+// entries in a synthetic installation (op `xarch`)
+// ------------------------------------------------------------------------------------------------
+
+const CATS: [&str; 15] = [
+    "common", "bgcommon", "bg", "cut", "chara", "shader", "ui", "sound", "vfx", "ui_script", "exd",
+    "game_script", "music", "sqpack_test", "debug",
+];
+
+fn word(rng: &mut Rng) -> String {
+    let n = rng.range(1, 8) as usize;
+    (0..n)
+        .map(|_| match rng.below(10) {
+            0 => (b'0' + rng.below(10) as u8) as char,
+            1 => '_',
+            _ => (b'a' + rng.below(26) as u8) as char,
+        })
+        .collect()
+}
+
+/// upper bound of the packed size of an entry given as `std …` / `tex …` / `mdl …` payload text,
+/// in 128-byte units (only used to choose offsets that cannot overlap; the driver rejects overlap)
+fn units_bound(payload: &str) -> u64 {
+    // every hex digit pair is at most one byte in the file; every block adds < 16 + 128 bytes, every
+    // block / mip / section at most 20 table bytes; 512 covers the fixed part of any header
+    let blocks = payload.matches(';').count() as u64 + payload.matches('|').count() as u64 + 1;
+    (payload.len() as u64 / 2 + 164 * blocks + 512) / 128 + 1
+}
+
+/// a small entry payload: `std <blocks>` | `tex <hdr> <mips>` | `mdl <meta> <secs>`
+fn small_payload(rng: &mut Rng, kind: u64, big: usize) -> String {
+    let total = |rng: &mut Rng| -> usize {
+        (match rng.below(8) {
+            0 => rng.range(1, 16),
+            1 => *rng.pick(&[111u64, 112, 113, 127, 128, 129]),
+            2..=5 => rng.range(16, 2000),
+            6 => rng.range(2000, 20000),
+            _ => rng.range(2000, big as u64),
+        }) as usize
+    };
+    let cuts = [Cut::Full, Cut::Full, Cut::Medium, Cut::Mixed];
+    match kind {
+        0 => {
+            if rng.chance(1, 12) {
+                return "std -".to_string();
+            }
+            let t = total(rng);
+            format!("std {}", blocks_any(rng, t, &cuts))
+        }
+        1 => {
+            let hdr_len = *rng.pick(&[80usize, 80, 0, 33]);
+            let hdr = rng.bytes(hdr_len);
+            let mut size = total(rng);
+            let mut mips = vec![];
+            let n_mips = rng.range(1, 5);
+            for m in 0..n_mips {
+                if m > 0 && rng.chance(1, 10) {
+                    mips.push("-".to_string());
+                    continue;
+                }
+                mips.push(blocks_any(rng, size, &cuts));
+                size = (size / 4).max(1);
+            }
+            format!("tex {} {}", hex(&hdr), mips.join("|"))
+        }
+        _ => {
+            let lods = rng.range(1, 3) as usize;
+            let with_edge = rng.chance(1, 3);
+            let mut secs = vec![];
+            for s in 0..11usize {
+                let lod = if s < 2 { 0 } else { (s - 2) / 3 };
+                let is_edge = s >= 2 && (s - 2) % 3 == 1;
+                let present = if is_edge { with_edge && lod < lods } else { s < 2 || lod < lods && rng.chance(5, 6) };
+                if !present {
+                    secs.push("-".to_string());
+                    continue;
+                }
+                let t = (total(rng) / 4).max(1);
+                secs.push(blocks_any(rng, t, &cuts));
+            }
+            format!(
+                "mdl {},{},{},{},{},{} {}",
+                rng.u32_edge(),
+                rng.below(65536),
+                rng.below(65536),
+                lods,
+                rng.below(2),
+                with_edge as u8,
+                secs.join("|")
+            )
+        }
+    }
+}
+
+fn mix_case(rng: &mut Rng, s: &str) -> String {
+    match rng.below(4) {
+        0 => s.to_ascii_uppercase(),
+        1 => s.chars().map(|c| if rng.chance(1, 2) { c.to_ascii_uppercase() } else { c }).collect(),
+        _ => s.to_string(),
+    }
+}
+
+struct XGen {
+    /// (path prefix = category[/exN], chunk, dat id) -> first free unit of that dat file
+    free: Vec<((String, u64, u64), u64)>,
+    records: Vec<String>,
+    paths: Vec<String>,
+}
+
+impl XGen {
+    fn free_of(&self, k: &(String, u64, u64)) -> u64 {
+        self.free.iter().find(|x| &x.0 == k).map(|x| x.1).unwrap_or(0)
+    }
+    fn set_free(&mut self, k: (String, u64, u64), v: u64) {
+        match self.free.iter_mut().find(|x| x.0 == k) {
+            Some(x) => x.1 = v,
+            None => self.free.push((k, v)),
+        }
+    }
+    /// entries with different payloads at the SAME offset of the dat files `dats` of one
+    /// (repository, category, chunk)
+    fn family(&mut self, rng: &mut Rng, prefix: &str, chunk: u64, dats: &[u64], kinds: Option<u64>, kind: Option<u64>, big: usize) {
+        let gap = match rng.below(4) {
+            0 => 0,
+            1 => rng.range(1, 3),
+            2 => rng.range(1, 40),
+            _ => rng.range(1, 600),
+        };
+        let units = dats.iter().map(|d| self.free_of(&(prefix.to_string(), chunk, *d))).max().unwrap_or(0) + gap;
+        // (a folder name never reads as a repository token `exN`)
+        let folder = if rng.chance(1, 2) { format!("f{}/", word(rng)) } else { String::new() };
+        for d in dats {
+            let kind = match kind { Some(k) => k, None => *rng.pick(&[0u64, 0, 0, 1, 2]) };
+            let payload = small_payload(rng, kind, big);
+            let path = loop {
+                let w = word(rng);
+                let p = format!("{}/{}{}_d{}.{}", prefix, folder, w, d, rng.pick(&["dat", "tex", "mdl", "exd", "lgb"]));
+                if !self.paths.contains(&p) {
+                    break p;
+                }
+            };
+            self.set_free((prefix.to_string(), chunk, *d), units + units_bound(&payload));
+            let kinds = match kinds { Some(k) => k, None => rng.range(1, 3) };
+            self.records.push(format!("E {} {} {} {} {} {}", hex(path.as_bytes()), chunk, kinds, d, units, payload));
+            self.paths.push(path);
+        }
+    }
+}
+
+fn xarch_line(rng: &mut Rng, plat: u64, dirs: &[String], g: &XGen, extra_queries: &[String], mode: &str) -> String {
+    let mut qs: Vec<String> = g.paths.iter().map(|p| format!("x{}", hex(mix_case(rng, p).as_bytes()))).collect();
+    qs.extend_from_slice(extra_queries);
+    // query order is arbitrary
+    for i in (1..qs.len()).rev() {
+        let j = rng.below(i as u64 + 1) as usize;
+        qs.swap(i, j);
+    }
+    format!(
+        "xarch {} {} {} {} {}",
+        plat,
+        dirs.iter().map(|d| hex(d.as_bytes())).collect::<Vec<_>>().join(","),
+        qs.join(","),
+        mode,
+        g.records.join(" ")
+    )
+}
+
+/// bounded-exhaustive: entry type x index kinds, all eight dat files holding different entries at
+/// one offset
+fn sweep_xarch(rng: &mut Rng, lines: &mut Vec<String>) {
+    let mut n = 0u64;
+    for kind in 0..3u64 {
+        for kinds in 1..=3u64 {
+            n += 1;
+            let mut g = XGen { free: vec![], records: vec![], paths: vec![] };
+            let cat = CATS[(n as usize * 4) % 15];
+            let (prefix, dirs) = if n % 3 == 0 {
+                (format!("{}/ex2", cat), vec!["ffxiv".to_string(), "ex2".to_string()])
+            } else {
+                (cat.to_string(), vec!["ffxiv".to_string()])
+            };
+            g.family(rng, &prefix, n % 2, &[0, 1, 2, 3, 4, 5, 6, 7], Some(kinds), Some(kind), 3000);
+            lines.push(xarch_line(rng, n % 5, &dirs, &g, &[], "one"));
+        }
+    }
+}
+
+fn gen_xarch(rng: &mut Rng, big: usize, lines: &mut Vec<String>) {
+    let plat = rng.below(5);
+    let mut dirs: Vec<String> = vec!["ffxiv".to_string()];
+    let mut exs: Vec<u64> = vec![];
+    for e in 1..=3u64 {
+        if rng.chance(1, 3) {
+            exs.push(e);
+            dirs.push(format!("ex{}", e));
+        }
+    }
+    if rng.chance(1, 5) {
+        dirs.push(rng.pick(&["zzz", "movie", "exa"]).to_string());
+    }
+    for i in (1..dirs.len()).rev() {
+        let j = rng.below(i as u64 + 1) as usize;
+        dirs.swap(i, j);
+    }
+    let mut g = XGen { free: vec![], records: vec![], paths: vec![] };
+    let prefix_of = |rng: &mut Rng| -> String {
+        let cat = CATS[rng.below(15) as usize];
+        if !exs.is_empty() && rng.chance(1, 3) { format!("{}/ex{}", cat, rng.pick(&exs)) } else { cat.to_string() }
+    };
+    let main = prefix_of(rng);
+    let chunk = match rng.below(4) { 0 => rng.range(1, 9), 1 => rng.range(10, 254), _ => 0 };
+    let n_fam = rng.range(1, 3);
+    for f in 0..n_fam {
+        // dat ids: a pair that differs in one bit of the 3-bit id, or a random subset of >= 2
+        let dats: Vec<u64> = match rng.below(4) {
+            0 => { let d = rng.below(4); vec![d, d + 4] }
+            1 => { let d = rng.below(8); vec![d, d ^ (1 << rng.below(3))] }
+            2 => (0..8).collect(),
+            _ => {
+                let mut v: Vec<u64> = (0..8).filter(|_| rng.chance(1, 2)).collect();
+                if v.len() < 2 { v = vec![rng.below(4), 4 + rng.below(4)]; }
+                v
+            }
+        };
+        let (p, c) = if f > 0 && rng.chance(1, 3) { (prefix_of(rng), rng.below(3)) } else { (main.clone(), chunk) };
+        g.family(rng, &p, c, &dats, None, None, big);
+    }
+    let mut extra: Vec<String> = vec![];
+    // an index entry into a dat file that does not exist (-> None), and a second name for an entry
+    if rng.chance(1, 2) {
+        let d = rng.below(8);
+        let mut far = rng.range(200, 250);
+        if far == chunk {
+            far += 1;
+        }
+        let p = format!("{}/{}_gone.dat", main, word(rng));
+        g.records.push(format!("E {} {} {} {} {} none", hex(p.as_bytes()), far, rng.range(1, 3), d, rng.below(600)));
+        g.paths.push(p);
+    }
+    if rng.chance(1, 2) {
+        // same location as the first record under another name
+        let f: Vec<String> = g.records[0].split(' ').map(|x| x.to_string()).collect();
+        let first = String::from_utf8(unhex(&f[1]).unwrap()).unwrap();
+        let cat_prefix: Vec<&str> = first.split('/').collect();
+        let pre = if cat_prefix.len() > 2 && cat_prefix[1].starts_with("ex") { format!("{}/{}", cat_prefix[0], cat_prefix[1]) } else { cat_prefix[0].to_string() };
+        let p = format!("{}/a{}/alias_{}.bin", pre, word(rng), word(rng));
+        g.records.push(format!("E {} {} {} {} {} none", hex(p.as_bytes()), f[2], rng.range(1, 3), f[4], f[5]));
+        g.paths.push(p);
+    }
+    for _ in 0..rng.below(3) {
+        let p = match rng.below(3) {
+            0 => format!("{}/{}.dat", main, word(rng)),
+            1 => format!("{}x", rng.pick(&g.paths)),
+            _ => format!("{}/q{}/{}.tex", CATS[rng.below(15) as usize], word(rng), word(rng)),
+        };
+        extra.push(format!("x{}", hex(p.as_bytes())));
+    }
+    if rng.chance(1, 3) {
+        let p = rng.pick(&g.paths).clone();
+        extra.push(format!("{}{}", rng.pick(&['e', 'o']), hex(p.as_bytes())));
+    }
+    let mode = if rng.chance(1, 5) { "fresh" } else { "one" };
+    lines.push(xarch_line(rng, plat, &dirs, &g, &extra, mode));
+}
+
 pub fn generate(thorough: bool, seed: u64, out: &mut dyn Write) {
     let mut rng = Rng::new(seed, "C02");
     let big = if thorough { 1 << 20 } else { 1 << 16 };
@@ -150,6 +683,7 @@ pub fn generate(thorough: bool, seed: u64, out: &mut dyn Write) {
     }
     writeln!(out, "std 0 0 -").unwrap();
     let n = if thorough { 12000 } else { 180 };
+    let mut regular: Vec<String> = vec![];
     for i in 0..n {
         let (units, suffix) = place(&mut rng);
         match i % 3 {
@@ -157,7 +691,7 @@ pub fn generate(thorough: bool, seed: u64, out: &mut dyn Write) {
                 let total = total_len(&mut rng, big);
                 let max_blocks = if total > 100000 { 200 } else { 40 };
                 let b = blocks_of(&mut rng, total, max_blocks);
-                writeln!(out, "std {} {} {}", units, suffix, b).unwrap();
+                regular.push(format!("std {} {} {}", units, suffix, b));
             }
             1 => {
                 let hdr_len = match rng.below(4) {
@@ -177,7 +711,7 @@ pub fn generate(thorough: bool, seed: u64, out: &mut dyn Write) {
                     mips.push(blocks_of(&mut rng, size.max(1), 6));
                     size = (size / 4).max(1);
                 }
-                writeln!(out, "tex {} {} {} {}", units, suffix, hex(&hdr), mips.join("|")).unwrap();
+                regular.push(format!("tex {} {} {} {}", units, suffix, hex(&hdr), mips.join("|")));
             }
             _ => {
                 let lods = rng.range(1, 3);
@@ -204,8 +738,7 @@ pub fn generate(thorough: bool, seed: u64, out: &mut dyn Write) {
                     } as usize;
                     secs.push(blocks_of(&mut rng, total.max(nb), nb));
                 }
-                writeln!(
-                    out,
+                regular.push(format!(
                     "mdl {} {} {},{},{},{},{},{} {}",
                     units,
                     suffix,
@@ -216,10 +749,36 @@ pub fn generate(thorough: bool, seed: u64, out: &mut dyn Write) {
                     rng.below(2),
                     rng.below(2),
                     secs.join("|")
-                )
-                .unwrap();
+                ));
             }
         }
+    }
+    // large entries and installations, spread evenly over the (cheap) regular cases so that the
+    // contiguous shards of the check stay balanced
+    let mut heavy: Vec<String> = vec![];
+    gen_big(&mut Rng::new(seed, "C02-big"), thorough, &mut heavy);
+    let mut xrng = Rng::new(seed, "C02-xarch");
+    sweep_xarch(&mut xrng, &mut heavy);
+    for _ in 0..(if thorough { 1500 } else { 40 }) {
+        gen_xarch(&mut xrng, if thorough { 60000 } else { 20000 }, &mut heavy);
+    }
+    let mut hrng = Rng::new(seed, "C02-order");
+    for i in (1..heavy.len()).rev() {
+        let j = hrng.below(i as u64 + 1) as usize;
+        heavy.swap(i, j);
+    }
+    let per = regular.len() / heavy.len().max(1) + 1;
+    let mut h = heavy.into_iter();
+    for (i, l) in regular.iter().enumerate() {
+        writeln!(out, "{}", l).unwrap();
+        if (i + 1) % per == 0 {
+            if let Some(x) = h.next() {
+                writeln!(out, "{}", x).unwrap();
+            }
+        }
+    }
+    for x in h {
+        writeln!(out, "{}", x).unwrap();
     }
     // the inflater the model's `inflate` parameter is instantiated with is itself checked against
     // zlib on every run: streams from zlib's deflate (all levels / strategies) and corrupted ones
@@ -230,6 +789,10 @@ pub fn run(case: &str, input: &str) -> String {
     if case.starts_with("inflate ") || case.starts_with("garbage ") {
         // validation of the executable inflate model (Model/Inflate.lean) against zlib
         return crate::xinf::run(case, input);
+    }
+    if let Some(rest) = input.strip_prefix("xarch ") {
+        // `<platform> <dirs> <files> <queries> <mode>`: C01's installation runner
+        return crate::c01::run(case, rest);
     }
     let f: Vec<&str> = input.split(' ').collect();
     if f.len() != 2 {
